@@ -757,7 +757,11 @@ class DataFieldBase(FieldBase, metaclass=ABCMeta):
 
         # determine the grid coordinates next to the chosen points
         low = np.array(grid.axes_bounds)[:, 0]
-        c_l, d_l = np.divmod((point - low) / grid.discretization - 0.5, 1.0)
+        cell_pos = (point - low) / grid.discretization
+        if np.any(((cell_pos < 0) | (cell_pos > grid.shape)) & ~np.array(grid.periodic)):
+            msg = "Point lies outside grid"
+            raise DomainError(msg)
+        c_l, d_l = np.divmod(cell_pos - 0.5, 1.0)
         c_l = c_l.astype(int)  # support points to the left of the chosen points
         w_l = 1 - d_l  # weights of the low point
         w_h = d_l  # weights of the high point
